@@ -911,6 +911,149 @@ fn spanless_cases(tier: &str) -> Vec<Case> {
     out
 }
 
+/// Failing expressions inside a tag with a slot `§` at every place where white space may be inserted:
+/// after the opening delimiter, between sub-expressions, before the closing delimiter.  `@@ … $$`
+/// brackets the failing operation INCLUDING its operands / arguments.  Rule checked: the reported
+/// line lies within the lines of that operation; line breaks inserted before its first token shift
+/// the report (and the range) by exactly their number, those after its last token by 0.
+const INNER_SITES: &[(&str, &str, &str)] = &[
+    ("add", "", "{{§ @@1§ +§ s$$§ }}"),
+    ("filter", "", "{{§ @@x§ |§ bogus$$§ }}"),
+    ("filter_chain", "", "{{§ @@x§ |§ string§ |§ bogus$$§ |§ upper§ }}"),
+    ("filter_args", "", "{{§ @@s§ |§ replace§ (§ 1§ )$$§ }}"),
+    ("call", "", "{{§ @@bogus§ (§ 1§ ,§ 2§ )$$§ }}"),
+    ("call_kwargs", "", "{{§ @@boom§ (§ a§ =§ 1§ )$$§ }}"),
+    ("method", "", "{{§ @@s.bogus§ (§ )$$§ }}"),
+    ("test", "", "{{§ @@x§ is§ bogus$$§ }}"),
+    ("getattr_strict", "s", "{{§ @@d.nope§ .deeper$$§ }}"),
+    ("getitem", "", "{{§ @@missing§ [§ 0§ ]$$§ }}"),
+    ("compare_chain", "", "{{§ @@0§ <§ 1§ in§ 2§ <§ 3$$§ }}"),
+    ("in", "", "{{§ @@1§ in§ 2$$§ }}"),
+    ("neg", "", "{{§ @@-§ s$$§ }}"),
+    ("arg_of_macro", "", "{{§ m(§ @@1§ +§ s$$§ ,§ 2§ )§ }}"),
+    ("list_item", "", "{{§ [§ 1§ ,§ @@2§ +§ s$$§ ,§ 3§ ]§ }}"),
+    ("ternary_cond", "", "{{§ 1§ if§ @@1§ +§ s$$§ else§ 2§ }}"),
+    ("self_block_unknown", "", "{{§ @@self.nope§ (§ )$$§ }}"),
+    ("self_block_required", "", "{{§ @@self.rq§ (§ )$$§ }}"),
+    ("self_block_in_expr", "", "{{§ @@self.nope§ (§ )$$§ ~§ 1§ }}"),
+    ("super_fast", "", "{{§ @@super§ (§ )$$§ }}"),
+    ("super_in_expr", "", "{{§ @@super§ (§ )$$§ ~§ 1§ }}"),
+    ("loop_fast", "", "{{§ @@loop§ (§ fa§ )$$§ }}"),
+    ("loop_in_expr", "", "{{§ @@loop§ (§ fa§ )$$§ ~§ 1§ }}"),
+    ("include_nonstring", "", "{%§ @@include§ 42$$§ %}"),
+    ("include_missing", "", "{%§ @@include§ \"nosuch\"$$§ %}"),
+    ("extends_nonstring", "", "{%§ @@extends§ 42$$§ %}"),
+    ("extends_missing", "", "{%§ @@extends§ \"nosuch\"$$§ %}"),
+    ("import_nonstring", "", "{%§ @@import§ 42§ as§ zz$$§ %}"),
+    ("from_import_missing", "", "{%§ @@from§ \"nosuch\"§ import§ zz$$§ %}"),
+    ("autoescape", "", "{%§ @@autoescape§ bad$$§ %}zz{% endautoescape %}"),
+    ("for_noniterable", "", "{%§ @@for§ fa§ in§ x$$§ %}{% endfor %}"),
+    ("set_unpack", "", "{%§ @@set§ ua§ ,§ ub§ =§ x$$§ %}"),
+    ("if_strict", "s", "{%§ @@if§ missing$$§ %}{% endif %}"),
+    ("with_expr", "", "{%§ with§ q§ =§ @@1§ +§ s$$§ %}{% endwith %}"),
+    ("filter_block", "", "{%§ @@filter§ bogus$$§ %}zz{% endfilter %}"),
+    ("call_block", "", "{%§ @@call§ bogus§ (§ )§ %}zz{% endcall %}$$"),
+    ("block_required", "", "{%§ @@block§ rq2§ required$$§ %}{% endblock %}"),
+];
+
+fn inner_cases(tier: &str) -> Vec<Case> {
+    let mut out = Vec::new();
+    for (site, flags, text) in INNER_SITES {
+        let nslots = text.matches('§').count();
+        for j in 0..nslots {
+            // quick tier: the slot after the opening delimiter, the one before the closing delimiter and
+            // every second one in between
+            if tier != "thorough" && !(j == 0 || j + 1 == nslots || j % 2 == 1) {
+                continue;
+            }
+            let mut k = 0;
+            let mut marked = String::new();
+            for ch in text.chars() {
+                if ch == '§' {
+                    if k == j {
+                        marked.push_str("^^");
+                    }
+                    k += 1;
+                } else {
+                    marked.push(ch);
+                }
+            }
+            let surround = match *site {
+                "super_fast" | "super_in_expr" => format!("a\n{{% block b %}}\nx {}\n{{% endblock %}}", marked),
+                "loop_fast" | "loop_in_expr" => format!("a\n{{% for fa in lst %}}\nx {}\n{{% endfor %}}", marked),
+                "self_block_required" => format!("{{% if false %}}{{% block rq required %}}{{% endblock %}}{{% endif %}}\nx {}\nb", marked),
+                "arg_of_macro" => format!("{{% macro m(a, b) %}}{{{{ a }}}}{{% endmacro %}}\nx {}\nb", marked),
+                _ => format!("a\nx {}\nb", marked),
+            };
+            out.push(Case {
+                id: format!("inn_{}_{}", site, j),
+                templates: vec![("main".to_string(), surround)],
+                main: "main".to_string(),
+                shifted: "main".to_string(),
+                flags: format!("i{}", flags),
+                class: "runtime",
+            });
+        }
+    }
+    out
+}
+
+/// empty / degenerate constructs: whatever they do (parse error, run-time error, nothing), every span
+/// involved has to be a well-formed slice
+fn degenerate_cases() -> Vec<Case> {
+    let mut v = Vec::new();
+    for (id, text) in [
+        ("for_empty_target", "a\n@@{% for in [1] %}x{% endfor %}"),
+        ("for_empty_target_ctx", "a\n@@{% for in lst %}x{{ 1 + s }}{% endfor %}"),
+        ("for_trailing_comma", "a\n@@{% for fa, in [1] %}x{% endfor %}"),
+        ("for_empty_tuple", "a\n@@{% for () in [1] %}x{% endfor %}"),
+        ("for_empty_iter", "a\n@@{% for fa in %}x{% endfor %}"),
+        ("set_empty_target", "a\n@@{% set = 1 %}"),
+        ("set_empty_tuple", "a\n@@{% set () = 1 %}"),
+        ("set_paren_target", "a\n@@{% set (ua, ub) = 1 %}"),
+        ("set_empty_value", "a\n@@{% set q = %}"),
+        ("set_block_empty", "a\n@@{% set q %}{% endset %}{{ q + 1 }}"),
+        ("with_empty", "a\n@@{% with %}{{ 1 + s }}{% endwith %}"),
+        ("with_empty_target", "a\n@@{% with = 1 %}{% endwith %}"),
+        ("empty_tuple_op", "a\n@@{{ () + 1 }}"),
+        ("empty_tuple_filter", "a\n@@{{ ()|bogus }}"),
+        ("empty_list_op", "a\n@@{{ [] + s }}"),
+        ("empty_map_op", "a\n@@{{ {} + 1 }}"),
+        ("empty_call_args", "a\n@@{{ bogus( ) }}"),
+        ("empty_filter_args", "a\n@@{{ x|bogus() }}"),
+        ("empty_test_args", "a\n@@{{ x is bogus() }}"),
+        ("empty_subscript", "a\n@@{{ lst[] }}"),
+        ("empty_slice", "a\n@@{{ lst[:]|bogus }}"),
+        ("empty_slice_colons", "a\n@@{{ lst[::]|bogus }}"),
+        ("empty_variable_tag", "a\n@@{{ }}"),
+        ("empty_block_tag", "a\n@@{% %}"),
+        ("empty_block_body", "a\n{% block b %}{% endblock %}@@{{ self.nope() }}"),
+        ("empty_macro", "{% macro m() %}{% endmacro %}\n@@{{ m(1) }}"),
+        ("empty_macro_args_default", "a\n@@{% macro m(a=) %}{% endmacro %}{{ m() }}"),
+        ("empty_call_block", "{% macro m() %}{{ caller() }}{% endmacro %}\n@@{% call m() %}{% endcall %}{{ 1 + s }}"),
+        ("empty_call_block_args", "{% macro m() %}{{ caller() }}{% endmacro %}\n@@{% call() m() %}{{ bogus() }}{% endcall %}"),
+        ("empty_filter_block", "a\n@@{% filter bogus %}{% endfilter %}"),
+        ("empty_if", "a\n@@{% if %}{% endif %}"),
+        ("empty_if_body", "a\n@@{% if 1 + s %}{% endif %}"),
+        ("empty_include", "a\n@@{% include %}"),
+        ("empty_include_list", "a\n@@{% include [] %}"),
+        ("empty_extends", "a\n@@{% extends %}"),
+        ("empty_import_names", "a\n@@{% from \"nosuch\" import %}"),
+        ("empty_autoescape", "a\n@@{% autoescape %}{% endautoescape %}"),
+        ("empty_do", "a\n@@{% do %}"),
+        ("empty_raw", "a\n{% raw %}{% endraw %}@@{{ 1 + s }}"),
+        ("empty_comment", "a\n{##}@@{{ 1 + s }}"),
+        ("empty_string_ops", "a\n@@{{ '' + 1 }}"),
+        ("unpack_empty_list", "a\n@@{% set ua, ub = [] %}"),
+        ("unpack_nested_empty", "a\n@@{% for (fa, ()), fb in [[[1, []], 2]] %}{{ fa + s }}{% endfor %}"),
+    ] {
+        let mut c = one(&format!("deg_{}", id), "", text);
+        c.class = "runtime";
+        v.push(c);
+    }
+    v
+}
+
 /// valid templates whose every line starts in data state; syntax errors are planted at every
 /// token position of these
 const BASES: &[&str] = &[
@@ -1026,33 +1169,54 @@ struct Built {
     /// marked construct (the tag that follows the marker) extends over
     mline: usize,
     mext: usize,
+    /// inner cases: end of the failing construct in the unshifted text (else -1)
+    pe: i64,
 }
+
+/// removes the markers `^^` (vertical insertion point), `@@` (start of the failing construct =
+/// horizontal insertion point) and `$$` (end of the failing construct); positions in the plain text
+fn strip_markers(text: &str) -> (String, Option<usize>, usize, Option<usize>) {
+    let mut plain = String::new();
+    let (mut pv, mut ph, mut pe) = (None, None, None);
+    let mut i = 0;
+    while i < text.len() {
+        let rest = &text[i..];
+        if rest.starts_with("^^") {
+            pv = Some(plain.len());
+            i += 2;
+        } else if rest.starts_with("@@") {
+            ph = Some(plain.len());
+            i += 2;
+        } else if rest.starts_with("$$") {
+            pe = Some(plain.len());
+            i += 2;
+        } else {
+            let ch = rest.chars().next().unwrap();
+            plain.push(ch);
+            i += ch.len_utf8();
+        }
+    }
+    (plain, pv, ph.expect("case needs an @@ marker"), pe)
+}
+
+/// whitespace inserted INSIDE a tag (inner cases, flag i): (repetitions, unit)
+const INNER_SHIFTS: &[(usize, &str)] = &[(0, ""), (1, "\n"), (2, "\n  "), (7, "\r\n"), (3, " "), (300, "\n"), (2, "\t\n")];
 
 fn build_case(c: &Case, vi: usize, hi: usize) -> Built {
     let mut sources = Vec::new();
     let (mut pv, mut ph, mut vline, mut n, mut vbytes, mut hbytes) = (0, 0, 1, 0, 0, 0);
     let (mut mline, mut mext) = (1, 0);
+    let mut pe_out: i64 = -1;
     for (name, text) in &c.templates {
         if *name != c.shifted {
             sources.push((name.clone(), Src::lit(text)));
             continue;
         }
-        // marker positions in the marker-free text
-        let (a, b) = match text.find("^^") {
-            Some(p) => (p, true),
-            None => (0, false),
-        };
-        let t1 = if b { format!("{}{}", &text[..a], &text[a + 2..]) } else { text.clone() };
-        let h = t1.find("@@").expect("case needs an @@ marker");
-        let t2 = format!("{}{}", &t1[..h], &t1[h + 2..]);
-        // optional `$$`: end of the marked construct (default: end of the tag after the marker)
-        let (plain, cend) = match t2.find("$$") {
-            Some(e) => (format!("{}{}", &t2[..e], &t2[e + 2..]), Some(e)),
-            None => (t2, None),
-        };
-        assert!(a <= h, "vertical marker must precede the horizontal one");
-        pv = a;
+        let (plain, a, h, cend) = strip_markers(text);
+        let inner = c.flags.contains('i');
+        pv = a.unwrap_or(0);
         ph = h;
+        assert!(inner || pv <= ph, "vertical marker must precede the horizontal one");
         vline = 1 + plain[..pv].bytes().filter(|x| *x == b'\n').count();
         mline = 1 + plain[..ph].bytes().filter(|x| *x == b'\n').count();
         let tail = &plain[ph..];
@@ -1060,31 +1224,47 @@ fn build_case(c: &Case, vi: usize, hi: usize) -> Built {
         // an unclosed block extends to the end of the template
         let tag_end = if c.id.starts_with("syn_missing_") { tail.len() } else { tag_end };
         let tag_end = cend.map(|e| e - ph).unwrap_or(tag_end);
+        if inner {
+            pe_out = (ph + tag_end) as i64;
+        }
         mext = tail[..tag_end].bytes().filter(|x| *x == b'\n').count();
         let base_lines = 1 + plain.bytes().filter(|x| *x == b'\n').count();
-        let (vn, unit) = V_SHIFTS[vi];
-        n = if vn == usize::MAX { 65535 - base_lines } else { vn };
+        let (vn, unit) = if inner { INNER_SHIFTS[vi] } else { V_SHIFTS[vi] };
+        let reps = if vn == usize::MAX { 65535 - base_lines } else { vn };
         let hunit = H_SHIFTS[hi];
         // expressions: only whitespace can be inserted
         let is_expr = c.flags.contains('e');
         let unit = if is_expr && unit != "\r\n" { "\n" } else { unit };
         let hunit = if is_expr && hunit != "L" { &"   "[..hunit.chars().count()] } else { hunit };
+        n = reps * unit.bytes().filter(|x| *x == b'\n').count();
+        vbytes = unit.len() * reps;
+        // the two insertions in source order (the vertical one first when they coincide)
         let mut s = Src::default();
-        s.push_lit(&plain[..pv]);
-        s.push_rep(unit, n);
-        vbytes = unit.len() * n;
-        s.push_lit(&plain[pv..ph]);
-        if hunit == "L" {
-            s.push_rep(if is_expr { " " } else { "x" }, 65540);
-            hbytes = 65540;
+        let (first, second) = if pv <= ph { (pv, ph) } else { (ph, pv) };
+        let push_v = |s: &mut Src| s.push_rep(unit, reps);
+        let push_h = |s: &mut Src, hbytes: &mut usize| {
+            if hunit == "L" {
+                s.push_rep(if is_expr { " " } else { "x" }, 65540);
+                *hbytes = 65540;
+            } else {
+                s.push_lit(hunit);
+                *hbytes = hunit.len();
+            }
+        };
+        s.push_lit(&plain[..first]);
+        if pv <= ph {
+            push_v(&mut s);
+            s.push_lit(&plain[first..second]);
+            push_h(&mut s, &mut hbytes);
         } else {
-            s.push_lit(hunit);
-            hbytes = hunit.len();
+            push_h(&mut s, &mut hbytes);
+            s.push_lit(&plain[first..second]);
+            push_v(&mut s);
         }
-        s.push_lit(&plain[ph..]);
+        s.push_lit(&plain[second..]);
         sources.push((name.clone(), s));
     }
-    Built { sources, pv, ph, vline, n, vbytes, hbytes, mline, mext }
+    Built { sources, pv, ph, vline, n, vbytes, hbytes, mline, mext, pe: pe_out }
 }
 
 /// environment configurations (one letter each):
@@ -1280,9 +1460,9 @@ fn run_case(c0: &Case, cfg: &str, vi: usize, hi: usize) -> String {
     };
     let specs: Vec<String> = b.sources.iter().map(|(n, s)| format!("{}={}", hex(n.as_bytes()), s.spec())).collect();
     format!(
-        "P{},{},{},{},{},{},{},{},{},{}|{}|{}",
+        "P{},{},{},{},{},{},{},{},{},{},{}|{}|{}",
         b.pv, b.ph, b.vline, b.n, b.vbytes, b.hbytes, hex(c.shifted.as_bytes()), b.mline, b.mext,
-        FREE_MARKER.contains(&c.id.as_str()) as u8, body, specs.join(";")
+        FREE_MARKER.contains(&c.id.as_str()) as u8, b.pe, body, specs.join(";")
     )
 }
 
@@ -1699,6 +1879,8 @@ fn all_cases(tier: &str, rng: &mut Rng) -> Vec<Case> {
     let mut v = runtime_cases();
     v.extend(spanless_cases(tier));
     v.extend(row_cases(tier));
+    v.extend(inner_cases(tier));
+    v.extend(degenerate_cases());
     v.extend(planted_cases(tier, rng));
     v
 }
@@ -1720,6 +1902,10 @@ fn variants(c: &Case, idx: usize, tier: &str) -> Vec<(&'static str, usize, usize
         let cfg: &'static str = cfg;
         if c.class == "planted" {
             if cfg != "d" && PLANT_CFGS[idx % PLANT_CFGS.len()] != cfg {
+                continue;
+            }
+        } else if c.flags.contains('i') {
+            if cfg != "d" {
                 continue;
             }
         } else if c.id.starts_with("row_") && c.id.contains("__") {
@@ -1750,8 +1936,12 @@ fn variants(c: &Case, idx: usize, tier: &str) -> Vec<(&'static str, usize, usize
             for hi in 0..H_SHIFTS.len() {
                 let big = V_SHIFTS[vi].0 > 1000 || H_SHIFTS[hi] == "L";
                 let small_sample = vi <= 1 || (vi == 3 && hi == 2) || (vi == 2 && hi == 1);
-                let keep = if tier == "thorough" {
+                let keep = if c.flags.contains('i') {
+                    hi == 0 && (vi <= 4 || tier == "thorough")
+                } else if tier == "thorough" {
                     (c.class != "planted" && !c.id.starts_with("sl_") && !c.id.contains("__")) || (c.class == "planted" && cfg == "d") || REDUCED.contains(&(vi, hi))
+                } else if c.flags.contains('i') {
+                    hi == 0 && matches!(vi, 0 | 1 | 2 | 3 | 4)
                 } else if c.id.starts_with("row_") && c.id.contains("__") {
                     matches!((vi, hi), (0, 0) | (1, 0) | (3, 2) | (5, 1)) && (cfg != "x" || (vi, hi) == (0, 0))
                 } else if c.id.starts_with("sl_") {
@@ -1760,7 +1950,8 @@ fn variants(c: &Case, idx: usize, tier: &str) -> Vec<(&'static str, usize, usize
                     cfg == "d"
                         || (is_print && matches!(cfg, "p" | "n" | "a"))
                         || (matches!(cfg, "p" | "n" | "x") && REDUCED.contains(&(vi, hi)))
-                        || matches!((vi, hi), (0, 0) | (1, 0) | (3, 2) | (5, 1))
+                        || matches!((vi, hi), (0, 0) | (1, 0) | (3, 2))
+                        || ((vi, hi) == (5, 1) && matches!(cfg, "k" | "c" | "l" | "t"))
                 } else if cfg != "d" {
                     matches!((vi, hi), (0, 0) | (1, 1) | (3, 2)) || (idx % 8 == 0 && REDUCED.contains(&(vi, hi)))
                 } else if big {
@@ -1800,7 +1991,8 @@ fn gen(tier: &str) {
                 lex_srcs.push(s.clone());
             }
         }
-        if c.class != "planted" {
+        let generated = ["sl_", "row_", "inn_", "print_", "deg_"].iter().any(|p| c.id.starts_with(p));
+        if c.class != "planted" && (!generated || tier == "thorough") && !c.flags.contains('i') {
             for (vi, hi) in [(3, 2), (5, 0), (0, 3), (6, 1)] {
                 let b = build_case(c, vi, hi);
                 for (n, s) in &b.sources {
